@@ -1,5 +1,5 @@
 """C01 - opening a masked card returns the type it was created with (discrete-log encoding; QR encoding: see c01 part 2)"""
-import vlib, vtmf_common
+import vlib, vtmf_common, qr_common
 PID = "C01"
 def run(tier, seed):
     ck = vlib.Check(PID, tier, seed, "model_checking")
@@ -11,6 +11,8 @@ def run(tier, seed):
             return "%s:%s" % (e["e"], e.get("card"))
         return None
     vtmf_common.record_and_validate(ck, PID, "c01", 400 if tier == "quick" else 6000, seed, interesting)
+    qr_common.run_mc(ck)
+    qr_common.record_and_validate(ck, PID, 150 if tier == "quick" else 3000, seed, ["Open","Mask","Type","CSec","Self"])
     ck.cov["rule"] = ("MC: all key vectors x types x mask chains (all coins) x contributed subsets in the group p=23,q=11; "
                       "traces: random groups (p<=46327), 1-4 players, type bits 1-4, chains <=8, TimingAttackProtection on/off, "
                       "missing shares; a case is a distinct (execution, card operation) pair")
